@@ -21,6 +21,7 @@ LEVEL_TEXT += (' (E5.key) deferred statements and attributes are never identifie
 
 LEVEL_TEXT += (' (E3.all) the attribute loops of the attribute statements (strict, lazy collection, lazy evaluation) process every attribute: no successful return from inside the loop.')
 LEVEL_TEXT += (' Every cycle of the deferred attribute loops reaches Attributes::add.')
+LEVEL_TEXT += (' (E7.keep) every attribute of a written attribute list reaches the AST.')
 def run(prog, rep):
     rep.rule("E5", "container fields of the graph are mutated only by their designated functions (see level text)")
     n = 0
@@ -91,6 +92,12 @@ def run(prog, rep):
                 rep.check(found, "E2.d", "%s :: Attributes::add → DuplicateAttribute #%d" % (f.id, na), sp_str(t["sp"]), "conflict reported as DuplicateAttribute",
                           "an attribute conflict here is not reported as DuplicateAttribute")
     rep.floor("E2.d", na, 7, "Attributes::add call sites")
+    # every attribute written in an `attr` statement reaches the AST (a repeated name must meet the run-time conflict test)
+    from . import C07
+    from ..lib.report import Filtered
+    nb0 = len(rep.items)
+    C07.parsed_elements_kept(prog, Filtered(rep, lambda rule, key: "parse_attributes" in key))
+    rep.floor("E7.keep", len(rep.items) - nb0, 1, "attribute list loop of the parser")
     # the deferred attribute statements assign every attribute they carry: each cycle of the attribute loop reaches Attributes::add
     from ..engines.e3_driver import forward_loops, once_per_iteration
     for ty in ("tsg::execution::lazy::statements::LazyAddGraphNodeAttribute", "tsg::execution::lazy::statements::LazyAddEdgeAttribute"):
